@@ -463,6 +463,21 @@ def stepOp (w : TWorld) (toks : List String) : Option (TWorld × String) :=
         let rs ← tw.g.renet.broadcast ch m
         let tw := { tw with g := { tw.g with renet := rs } }
         pure (tw, if ids.isEmpty then "ok -" else "ok " ++ ",".intercalate (ids.map toString))
+  -- a junk datagram (zero bytes of the given length, 0 included) reaches the server socket: from the relay's back socket
+  -- of slot k (`t-junk <k> <len>`) or from a stranger (`t-junk x <len>`)
+  | ["t-junk", who, len] => some <|
+    match pU64 len with
+    | some len => withW w fun tw =>
+      if len > 4000 then bad tw else
+      let data : Bytes := List.replicate len 0
+      if who = "x" then pure ({ tw with inbox := tw.inbox.push (.v4 [10, 0, 0, 9] 999, data) }, "ok") else
+      match pU64 who with
+      | some k =>
+        match tw.slots[k]? with
+        | some s => pure ({ tw with inbox := tw.inbox.push (s.back, data) }, "ok")
+        | none => bad tw
+      | none => bad tw
+    | none => (w, "bad-op")
   -- a datagram of the slot's down queue reaches the client's socket from an address that is NOT its server's
   -- (the relay's back socket): `Discarded packet from unknown server`
   | ["t-stray", k, i] => some <|
